@@ -19,7 +19,9 @@ func c07JoseDecoders(c *h.Ctx) []decoder {
 	}
 	var jwsTexts, jweTexts [][]byte
 	verKeys := []interface{}{ks.syms[32][0], &ks.rsa[0].PublicKey, &ecKey.PublicKey}
-	decKeys := []interface{}{ks.syms[16][0], ks.syms[32][0], ks.rsa[0], ecKey}
+	// decryption keys: one per key type AND an EC key on every curve — an ECDH-ES object made for a key on one curve
+	// (its `epk` is a valid point of THAT curve) is then also offered to recipients' keys on the other curves
+	decKeys := []interface{}{ks.syms[16][0], ks.syms[32][0], ks.rsa[0], ecKey, ks.ec["P-384"][0], ks.ec["P-521"][0], ks.ec["P-256"][1]}
 	for _, sc := range []struct {
 		alg jose.SignatureAlgorithm
 		key interface{}
@@ -50,6 +52,9 @@ func c07JoseDecoders(c *h.Ctx) []decoder {
 		{jose.ECDH_ES, jose.A128GCM, &ecKey.PublicKey},
 		{jose.ECDH_ES_A128KW, jose.A192CBC_HS384, &ecKey.PublicKey},
 		{jose.PBES2_HS256_A128KW, jose.A128GCM, ks.syms[16][0]},
+		{jose.ECDH_ES, jose.A256GCM, &ks.ec["P-384"][0].PublicKey},
+		{jose.ECDH_ES_A256KW, jose.A128GCM, &ks.ec["P-521"][0].PublicKey},
+		{jose.ECDH_ES_A192KW, jose.A128CBC_HS256, &ks.ec["P-256"][1].PublicKey},
 	} {
 		e, err := jose.NewEncrypter(ec.alg, ec.enc, ec.key)
 		if err != nil {
